@@ -38,6 +38,7 @@ Definition dispatch (op : Z) (x : sx) : sx :=
   | 10 => C10.Run.run x
   | 4 => C04.Run.run x
   | 6 => C06.Run.run x
+  | 106 => C06.Run.run_loop x
   | 19 => C19.Run.run x
   | 7 => C07.Run.run x
   | 12 => C12.Run.run x
